@@ -252,6 +252,8 @@ def r5(rep, w):
                 for q in paths:
                     if q[0] == root_key and managed_not_immortal(c, f.local_ty(l)):
                         # the value itself or a payload extracted from it (variant projection / try_as_*)
+                        if any(tok in ('as ObjString', '@try_as_obj_string') for tok in q[1:]):
+                            continue      # what was taken out of the ObjString variant is an interned string (immortal: R1s), also when it is wrapped in a Value again
                         if all(tok.startswith('as ') or tok in ('0', '*') or tok.startswith('@') or tok.startswith('in ') for tok in q[1:]) \
                                 and not any(tok in ('@deref', '@borrow', '@borrow_mut') for tok in q[1:]):
                             derived.add(l)
